@@ -192,6 +192,24 @@ def ex_gridded(ctx, case, ratesB, seed=0, quad=None):
                 continue
             compare(ctx, rc0, tags, base[name], other, "exact" if kind in ("sim", "simbin") else "multiset")
         ctx.count(len(jobs))
+    # (a') history: the same catalog object is evaluated, its stored event array is then re-ordered IN PLACE, and it is evaluated again
+    if n >= 2:
+        o = rng.permutation(n)
+        for name, fn, kind in jobs:
+            fa, fb, cat = build_gridded(case, ratesB, quad=quad)
+            ok0, res0, tb0 = ctx.call(fn, fa, fb, cat)
+            ctx.call(cat.spatial_magnitude_counts)
+            cat.catalog[:] = cat.catalog[o]
+            ok, res, tb = ctx.call(fn, fa, fb, cat)
+            ctx.mon("pair:events", 1)
+            tags = {"perm": "events-in-place", "test": name, "region": "quadtree" if quad else "cartesian"}
+            other = sig(res, kind) if ok else ("raised", type(res).__name__)
+            if isinstance(base[name], tuple) or isinstance(other, tuple):
+                if base[name] != other:
+                    ctx.violate("evaluation raises for one storage order only", rc0, observed=repr(other)[:100], expected=repr(base[name])[:100], tags=tags)
+                continue
+            compare(ctx, rc0, tags, base[name], other, "exact" if kind in ("sim", "simbin") else "multiset")
+        ctx.count(len(jobs))
     # (c) consistent cell permutations
     cell_perms = [rng.permutation(ncell) for _ in range(2)] + [numpy.arange(ncell)[::-1]] if ncell >= 2 else []
     for p in cell_perms:
@@ -381,6 +399,20 @@ def run(ctx):
             ne = len(case["ev_cell"])
             case = dict(case, rates=rates.tolist(), ev_cell=r.integers(0, nc, ne).tolist())
             B = rates * 10 ** r.normal(0, 0.4, rates.shape)
+        if j % 5 == 4 and quad is None and case["nx"] * case["ny"] >= 2:
+            # benchmark = the forecast with its cells mirrored (same total, exactly: dyadic rates), events in both cells of a mirrored pair:
+            # the per-event log-rate differences then come in exact +d / -d pairs (tied absolute values of opposite sign for the rank test)
+            nc, nm = case["nx"] * case["ny"], case["nmag"]
+            rates = r.integers(1, 2000, (nc, nm)) / 1024.0
+            ne = max(4, len(case["ev_cell"]) // 2 * 2)
+            ci_ = r.integers(0, nc, ne // 2)
+            ki_ = r.integers(0, nm, ne // 2)
+            ev_cell = numpy.concatenate([ci_, nc - 1 - ci_])
+            ev_mag = numpy.concatenate([ki_, ki_])
+            case = dict(case, rates=rates.tolist(), ev_cell=ev_cell.tolist(), ev_mag=ev_mag.tolist(), frac=r.uniform(0.15, 0.85, (ne, 2)).tolist(),
+                        magoff=r.uniform(0.1, 0.9, ne).tolist())
+            B = rates[::-1]
+            ctx.add("mirrored_benchmark_cases")
         ex_gridded(ctx, case, B.tolist(), seed=int(r.integers(0, 10 ** 6)), quad=quad)
         fc = c10.gen(r, obs_mode=str(r.choice(["normal", "dense", "normal", "unsampled-some"])), empty_mode=[None, "some"][j % 2])
         ex_catalog(ctx, fc, seed=int(r.integers(0, 10 ** 6)))
